@@ -121,6 +121,23 @@ with ch_body (fuel : nat) (D : defs) (inp : list (item * val)) (args : key) (loc
               else (Err k, ch, ln + 1)
           | (OutOfFuel, _) => (OutOfFuel, [], 0)
           end
+      | SFin e c :: more =>
+          let ln := stmt_line whole idx in
+          match ch_expr f D inp args locs (ln + 1) e with
+          | (Val v, _) =>
+              match ch_expr f D inp args locs (ln + 3) c with
+              | (Val _, _) => ch_body f D inp args (locs ++ [v]) whole more (S idx)
+              | (Err k2, ch2) => (Err k2, ch2, ln + 3)
+              | (OutOfFuel, _) => (OutOfFuel, [], 0)
+              end
+          | (Err k, ch) =>
+              match ch_expr f D inp args locs (ln + 3) c with
+              | (Val _, _) => (Err k, ch, ln + 1)
+              | (Err k2, ch2) => (Err k2, ch2, ln + 3)
+              | (OutOfFuel, _) => (OutOfFuel, [], 0)
+              end
+          | (OutOfFuel, _) => (OutOfFuel, [], 0)
+          end
       end
   end.
 
@@ -155,7 +172,7 @@ Proof.
     destruct (ch_body f D inp (snd i) [] (cl_body cl) (cl_body cl) 0) as [[[v|k|] c] ln]; simpl; try reflexivity.
     destruct (none_check cl v); reflexivity.
   - intros D inp args locs whole rest idx. destruct rest as [|s more]; simpl; [reflexivity|].
-    destruct s as [e|e h].
+    destruct s as [e|e h|e c].
     + rewrite <- (IHe D inp args locs (stmt_line whole idx) e).
       destruct (ch_expr f D inp args locs (stmt_line whole idx) e) as [[v|k|] c1]; simpl; try reflexivity. apply IHb.
     + rewrite <- (IHe D inp args locs (stmt_line whole idx + 1) e).
@@ -163,6 +180,11 @@ Proof.
       destruct (catchable k); [|reflexivity].
       rewrite <- (IHe D inp args locs (stmt_line whole idx + 3) h).
       destruct (ch_expr f D inp args locs (stmt_line whole idx + 3) h) as [[v|k2|] c2]; simpl; try reflexivity. apply IHb.
+    + rewrite <- (IHe D inp args locs (stmt_line whole idx + 1) e).
+      rewrite <- (IHe D inp args locs (stmt_line whole idx + 3) c).
+      destruct (ch_expr f D inp args locs (stmt_line whole idx + 1) e) as [[v|k|] c1]; simpl; try reflexivity;
+        destruct (ch_expr f D inp args locs (stmt_line whole idx + 3) c) as [[w|k2|] c2]; simpl; try reflexivity.
+      apply IHb.
 Qed.
 
 (** * Every element on a chain fails with the chain's error *)
@@ -225,7 +247,7 @@ Proof.
       eapply IHb; eauto.
     + discriminate.
   - intros D inp args locs whole rest idx k cc ln H j l Hin. destruct rest as [|s more]; simpl in H; [discriminate|].
-    destruct s as [e|e h].
+    destruct s as [e|e h|e c].
     + destruct (ch_expr f D inp args locs (stmt_line whole idx) e) as [[v|k1|] c1] eqn:E1.
       * eapply IHb; eauto.
       * inversion H; subst. eapply IHe; eauto.
@@ -239,4 +261,56 @@ Proof.
            ++ discriminate.
         -- inversion H; subst. eapply IHe; eauto.
       * discriminate.
+    + destruct (ch_expr f D inp args locs (stmt_line whole idx + 1) e) as [[v|k1|] c1] eqn:E1.
+      * destruct (ch_expr f D inp args locs (stmt_line whole idx + 3) c) as [[w|k2|] c2] eqn:E2.
+        -- eapply IHb; eauto.
+        -- inversion H; subst. eapply IHe; eauto.
+        -- discriminate.
+      * destruct (ch_expr f D inp args locs (stmt_line whole idx + 3) c) as [[w|k2|] c2] eqn:E2.
+        -- inversion H; subst. eapply IHe; eauto.
+        -- inversion H; subst. eapply IHe; eauto.
+        -- discriminate.
+      * discriminate.
+Qed.
+
+(** * A value has no chain *)
+Lemma chain_val_nil : forall f,
+  (forall D inp args locs ln e v cc, ch_expr f D inp args locs ln e = (Val v, cc) -> cc = []) /\
+  (forall D inp args locs ln es v cc, ch_args f D inp args locs ln es = (Val v, cc) -> cc = []) /\
+  (forall D inp i v cc, ch_node f D inp i = (Val v, cc) -> cc = []) /\
+  (forall D inp args locs whole rest idx v cc ln, ch_body f D inp args locs whole rest idx = (Val v, cc, ln) -> cc = []).
+Proof.
+  induction f as [|f (IHe & IHa & IHn & IHb)].
+  { repeat split; intros; simpl in *; discriminate. }
+  repeat split.
+  - intros D inp args locs ln e v cc H. destruct e; simpl in H; try (inversion H; reflexivity).
+    + destruct (ch_expr f D inp args locs ln e1) as [[va|k1|] c1] eqn:E1; try discriminate.
+      destruct (ch_expr f D inp args locs ln e2) as [[vb|k2|] c2] eqn:E2; try discriminate.
+      inversion H; reflexivity.
+    + destruct (ch_expr f D inp args locs ln e1) as [[[z|]|k1|] c1] eqn:E1; try discriminate.
+      destruct (Z.ltb 0 z); eapply IHe; eauto.
+    + destruct (ch_args f D inp args locs ln args0) as [[vs|k1|] c1] eqn:E1; try discriminate.
+      destruct (lookup_cell (fst D) c) as [cl|]; [|discriminate].
+      destruct (bind_pos cl vs) as [kk|]; [|discriminate]. eapply IHn; eauto.
+  - intros D inp args locs ln es v cc H. destruct es as [|e rest]; simpl in H; [inversion H; reflexivity|].
+    destruct (ch_expr f D inp args locs ln e) as [[w|k1|] c1] eqn:E1; try discriminate.
+    destruct (ch_args f D inp args locs ln rest) as [[vs|k2|] c2] eqn:E2; try discriminate.
+    inversion H; reflexivity.
+  - intros D inp i v cc H. simpl in H.
+    destruct (lookup_cell (fst D) (fst i)) as [cl|]; [|discriminate].
+    destruct (if cl_cached cl then lookup_data inp i else None); [inversion H; reflexivity|].
+    destruct (ch_body f D inp (snd i) [] (cl_body cl) (cl_body cl) 0) as [[[w|k1|] cb] ln0]; try discriminate.
+    destruct (none_check cl w); inversion H; reflexivity.
+  - intros D inp args locs whole rest idx v cc ln H. destruct rest as [|s more]; simpl in H; [inversion H; reflexivity|].
+    destruct s as [e|e h|e c].
+    + destruct (ch_expr f D inp args locs (stmt_line whole idx) e) as [[w|k1|] c1] eqn:E1; try discriminate.
+      eapply IHb; eauto.
+    + destruct (ch_expr f D inp args locs (stmt_line whole idx + 1) e) as [[w|k1|] c1] eqn:E1; try discriminate.
+      * eapply IHb; eauto.
+      * destruct (catchable k1); [|discriminate].
+        destruct (ch_expr f D inp args locs (stmt_line whole idx + 3) h) as [[w|k2|] c2] eqn:E2; try discriminate.
+        eapply IHb; eauto.
+    + destruct (ch_expr f D inp args locs (stmt_line whole idx + 1) e) as [[w|k1|] c1] eqn:E1; try discriminate;
+        destruct (ch_expr f D inp args locs (stmt_line whole idx + 3) c) as [[w2|k2|] c2] eqn:E2; try discriminate.
+      eapply IHb; eauto.
 Qed.
